@@ -8,17 +8,17 @@ cd "$(dirname "$0")/.."
 SRC=$1; K=$2; ID=$3; PROP=$4; CHECKS=$5
 export GOFLAGS=-mod=mod GOPROXY=off GOSUMDB=off GOTOOLCHAIN=local
 HDR=$(head -1 $SRC/demo${K}_test.go)
-PKG=$(echo "$HDR" | sed -n 's/.*Package directory: *\([^ ]*\).*/\1/p')
-RUN=$(echo "$HDR" | sed -n 's/.*Run: *\(.*\)$/\1/p')
+PKG=$(echo "$HDR" | sed -n 's/.*Package directory: *\([^ (]*\).*/\1/p')
+RUN=$(echo "$HDR" | sed -n 's/.*Run: *\(.*\)$/\1/p' | sed 's/   *(.*$//')
 [ -n "$PKG" ] && [ -n "$RUN" ] || { echo "cannot parse demo header: $HDR"; exit 2; }
 WT=/tmp/wt-confirm-$ID
 git -C /repo worktree remove --force $WT >/dev/null 2>&1
 git -C /repo worktree add --detach $WT HEAD >/dev/null 2>&1 || exit 2
 cp $SRC/demo${K}_test.go $WT/$PKG/verif_seeded_demo_test.go
-(cd $WT && timeout 1200 $RUN > /tmp/confirm-$ID-clean.log 2>&1); clean=$?
+(cd $WT && timeout 1200 bash -c "$RUN" > /tmp/confirm-$ID-clean.log 2>&1); clean=$?
 if ! git -C $WT apply $(realpath $SRC/change${K}.diff); then echo "REJECT $ID: change does not apply"; git -C /repo worktree remove --force $WT; exit 3; fi
 (cd $WT && go build ./... > /tmp/confirm-$ID-build.log 2>&1); build=$?
-(cd $WT && timeout 1200 $RUN > /tmp/confirm-$ID-mut.log 2>&1); mut=$?
+(cd $WT && timeout 1200 bash -c "$RUN" > /tmp/confirm-$ID-mut.log 2>&1); mut=$?
 rm -f $WT/$PKG/verif_seeded_demo_test.go
 base=$(tools/baseline.sh $WT | head -1)
 git -C /repo worktree remove --force $WT >/dev/null 2>&1
